@@ -709,6 +709,8 @@ htp_status_t htp_mpart_part_handle_data(htp_multipart_part_t *part, const unsign
                 // Is there a pending header?
                 if (part->parser->pending_header_line == NULL) {
                     if (line != NULL) {
+                        // The line was assembled from pieces; drop its line ending too.
+                        bstr_adjust_len(line, len);
                         part->parser->pending_header_line = line;
                         line = NULL;
                     } else {
@@ -737,6 +739,8 @@ htp_status_t htp_mpart_part_handle_data(htp_multipart_part_t *part, const unsign
                         bstr_free(part->parser->pending_header_line);
 
                         if (line != NULL) {
+                            // The line was assembled from pieces; drop its line ending too.
+                            bstr_adjust_len(line, len);
                             part->parser->pending_header_line = line;
                             line = NULL;
                         } else {
